@@ -44,9 +44,12 @@ class CommandMeta(type):
         }
         new_class.allow_extra_inputs = attrs.get("allow_extra_inputs", False)
 
+        # A class is registered once per module, however often the module is executed. It is told apart by its class
+        # name: two classes of one module that claim the same command name are both registered (and reported as
+        # duplicates when a program uses that module), and a command name given after the class statement does not
+        # make the class look new
         if not any(
-            info.module == new_class.__module__
-            and getattr(info.command, "name", info.command.__name__) == command_name
+            info.module == new_class.__module__ and info.command.__name__ == name
             for info in mcs._commands
         ):
             mcs._commands.add(CommandInfo(new_class.__module__, new_class))
